@@ -34,7 +34,7 @@ OUT = {'success': 0x0000, 'warning': 0xB000, 'failure': 0xA700}
 
 def cases(tier, seed):
     rnd = random.Random('c19/%d' % seed)
-    n = 800 if tier == 'quick' else 40000
+    n = 4000 if tier == 'quick' else 120000
     for i in range(n):
         k = rnd.choice([0, 0, 1, 2, 3, 4, 6])
         yield dict(op=rnd.choice(['get', 'move', 'move']), n=k,
